@@ -169,15 +169,30 @@ theorem deconv_conv (x psf : List Rat) (h0 : at0 psf 0 ≠ 0) (r : Nat) :
     field_simp
     ring
 
-/-- the whole `deconvolve` (series division, `trim_zeros`, the first `len c − len psf − 1`
-samples) applied to the full convolution of a signal without zero samples returns the leading
+/-- the number of samples `deconvolve` returns, for every input: `len c − len psf − 1` when the input is longer
+than the kernel; for `len c ≤ len psf` the stop of Python's slice is negative and `r − (len psf + 1 − len c)`
+of the `r` (the next power of two) coefficients come back -/
+theorem deconvolve_length (c psf : List Rat) :
+    (deconvolve c psf).length =
+      if psf.length < c.length then c.length - psf.length - 1
+      else nextPow2 (max c.length psf.length) - (psf.length + 1 - c.length) := by
+  unfold deconvolve
+  simp only []
+  rw [pySliceTo_length, seriesDiv_length]
+  have := le_nextPow2 (max c.length psf.length)
+  split <;> split <;> omega
+
+example : (deconvolve [1, 2, 3, 4, 5, 6] [2, 1]).length = 3 := by rw [deconvolve_length]; rfl
+example : (deconvolve [4, 2] [2, 1, 5]).length = 2 := by rw [deconvolve_length]; decide
+
+/-- the whole `deconvolve` (series division, the slice `[: len c − len psf − 1]`) applied to the full
+convolution of ANY signal of at least two samples — zero samples anywhere included — returns the leading
 `n − 2` samples of the signal -/
-theorem deconvolve_fullConv (x psf : List Rat) (h0 : at0 psf 0 ≠ 0) (hx : ∀ v ∈ x, v ≠ 0) (hne : x ≠ []) :
+theorem deconvolve_fullConv_of_two_le (x psf : List Rat) (h0 : at0 psf 0 ≠ 0) (h2 : 2 ≤ x.length) :
     deconvolve (fullConv x psf) psf = x.take (x.length - 2) := by
   have hm : 0 < psf.length := by
     by_contra hcon
     exact h0 (at0_of_ge psf 0 (by omega))
-  have hn : 0 < x.length := List.length_pos_iff.mpr hne
   unfold deconvolve
   simp only []
   rw [deconv_conv x psf h0]
@@ -186,13 +201,103 @@ theorem deconvolve_fullConv (x psf : List Rat) (h0 : at0 psf 0 ≠ 0) (hx : ∀ 
     have := le_nextPow2 (max (fullConv x psf).length psf.length)
     rw [hlen] at this ⊢
     omega
-  rw [map_at0_range_ge x _ hr, trimZeros_append_zeros x hx, hlen]
-  congr 1
-  omega
+  rw [map_at0_range_ge x _ hr, hlen]
+  unfold pySliceTo
+  rw [if_pos (by omega)]
+  have hk : (((x.length + psf.length - 1 : Nat) : Int) - (psf.length : Int) - 1).toNat = x.length - 2 := by omega
+  rw [hk, List.take_append_of_le_length (by omega)]
+
+/-- the deconvolution clause for the property's quantifier (signals at least as long as the kernel):
+no hypothesis on the samples -/
+theorem deconvolve_fullConv (x psf : List Rat) (h0 : at0 psf 0 ≠ 0) (hne : x ≠ [])
+    (hnm : psf.length ≤ x.length) :
+    deconvolve (fullConv x psf) psf = x.take (x.length - 2) := by
+  have hn : 0 < x.length := List.length_pos_iff.mpr hne
+  have hm : 0 < psf.length := by
+    by_contra hcon
+    exact h0 (at0_of_ge psf 0 (by omega))
+  by_cases h2 : 2 ≤ x.length
+  · exact deconvolve_fullConv_of_two_le x psf h0 h2
+  · -- one sample, one tap: the stop of the slice is −1, of r = 1 coefficients none is left
+    have hx1 : x.length = 1 := by omega
+    have hp1 : psf.length = 1 := by omega
+    have hlen : (fullConv x psf).length = 1 := by simp [fullConv, hx1, hp1]
+    have hl : (deconvolve (fullConv x psf) psf).length = 0 := by
+      rw [deconvolve_length, hlen, hp1]; decide
+    rw [List.length_eq_zero_iff.mp hl, hx1]
+    rfl
 
 example : deconvolve (fullConv [5, 3, 8, 1, 9] [2, 1]) [2, 1] = [5, 3, 8] := by
   have := deconvolve_fullConv [5, 3, 8, 1, 9] [2, 1] (by norm_num [at0]) (by simp) (by simp)
   simpa using this
+
+/-- a leading zero, an interior run of zeros: kept -/
+example : deconvolve (fullConv [0, 9, 0, 0, 2, 0, 4] [8, 1]) [8, 1] = [0, 9, 0, 0, 2] := by
+  have := deconvolve_fullConv [0, 9, 0, 0, 2, 0, 4] [8, 1] (by norm_num [at0]) (by simp) (by simp)
+  simpa using this
+
+/-- outside the quantifier (a one-sample signal, a longer kernel) the negative stop of the slice returns the
+sample followed by padding zeros: `r − 1` values for a signal of one -/
+theorem deconvolve_fullConv_single (v : Rat) (psf : List Rat) (h0 : at0 psf 0 ≠ 0) :
+    deconvolve (fullConv [v] psf) psf
+      = (v :: List.replicate (nextPow2 psf.length - 1) 0).take (nextPow2 psf.length - 1) := by
+  have hm : 0 < psf.length := by
+    by_contra hcon
+    exact h0 (at0_of_ge psf 0 (by omega))
+  unfold deconvolve
+  simp only []
+  rw [deconv_conv [v] psf h0]
+  have hlen : (fullConv [v] psf).length = psf.length := by simp [fullConv]
+  rw [hlen, Nat.max_self]
+  have hr : ([v] : List Rat).length ≤ nextPow2 psf.length := by
+    have := le_nextPow2 psf.length
+    simp only [List.length_singleton]; omega
+  rw [map_at0_range_ge [v] _ hr]
+  unfold pySliceTo
+  rw [if_neg (by omega)]
+  simp
+
+example : deconvolve (fullConv [7] [4, 2, 1]) [4, 2, 1] = [7, 0, 0] := by
+  rw [deconvolve_fullConv_single 7 [4, 2, 1] (by norm_num [at0])]; decide
+
+/-- `mode="same"`: the recovered samples followed by the input from there on -/
+theorem deconvolveSame_fullConv (x psf : List Rat) (h0 : at0 psf 0 ≠ 0) (hne : x ≠ [])
+    (hnm : psf.length ≤ x.length) :
+    deconvolveSame (fullConv x psf) psf = x.take (x.length - 2) ++ (fullConv x psf).drop (x.length - 2) := by
+  unfold deconvolveSame
+  simp only []
+  rw [deconvolve_fullConv x psf h0 hne hnm, List.length_take]
+  congr 2
+  omega
+
+/-- REGRESSION (the mechanism before /repo 5e4648b, `np.trim_zeros` before the slice): a signal with an exactly
+zero leading sample comes back shifted by one — the first sample is lost, a later one appears in its place -/
+theorem deconvolve_old_shifts :
+    deconvolveOld (fullConv [0, 9, 5, 43, 2, 27, 4, 15, 24] [8, 1]) [8, 1] = [9, 5, 43, 2, 27, 4, 15] ∧
+    deconvolve (fullConv [0, 9, 5, 43, 2, 27, 4, 15, 24] [8, 1]) [8, 1] = [0, 9, 5, 43, 2, 27, 4] := by
+  decide +kernel
+
+/-- what the hypothesis `∀ v ∈ x, v ≠ 0` of the earlier `deconvolve_fullConv` hid: the old mechanism is right
+exactly as far as the first and the last sample are non-zero -/
+theorem deconvolveOld_fullConv (x psf : List Rat) (h0 : at0 psf 0 ≠ 0) (h2 : 2 ≤ x.length)
+    (hh : ∀ a, x.head? = some a → a ≠ 0) (hl : ∀ a, x.getLast? = some a → a ≠ 0) :
+    deconvolveOld (fullConv x psf) psf = x.take (x.length - 2) := by
+  have hm : 0 < psf.length := by
+    by_contra hcon
+    exact h0 (at0_of_ge psf 0 (by omega))
+  unfold deconvolveOld
+  simp only []
+  rw [deconv_conv x psf h0]
+  have hlen : (fullConv x psf).length = x.length + psf.length - 1 := by simp [fullConv]
+  have hr : x.length ≤ nextPow2 (max (fullConv x psf).length psf.length) := by
+    have := le_nextPow2 (max (fullConv x psf).length psf.length)
+    rw [hlen] at this ⊢
+    omega
+  rw [map_at0_range_ge x _ hr, trimZeros_append_zeros x hh hl, hlen]
+  unfold pySliceTo
+  rw [if_pos (by omega)]
+  congr 1
+  omega
 
 
 /-! ## error function approximation -/
@@ -251,11 +356,51 @@ theorem erf_reduce {K : Type*} [Field K] [LinearOrder K] [IsStrictOrderedRing K]
     have e : ((-erfApprox x : Rat) : K) - -f x = -(((erfApprox x : Rat) : K) - f x) := by push_cast; ring
     rwa [e, abs_neg] at this
 
-/-- shape of the inverse: `sign(x) · g(x²)` is odd whatever `g` is -/
-theorem erfinv_odd (g : Rat → Rat) (x : Rat) : erfinvShape g (-x) = -erfinvShape g x := by
-  unfold erfinvShape
-  rw [sgn_neg]; ring_nf
+/-! ## inverse error function: `erfinv` as coded around π, log1p and sqrt -/
 
+/-- `erfinv` as coded is odd, whatever π, `log1p` and `sqrt` are (any field, any functions): the sign is the only
+place the sign of the argument enters, the rest sees `-x * x` -/
+theorem erfinv_odd {K : Type} [Field K] (pi : K) (log1p : Rat → K) (sqrt : K → K) (x : Rat) :
+    erfinvWith ⟨((↑) : Rat → K), pi, log1p, sqrt⟩ (-x) = -erfinvWith ⟨((↑) : Rat → K), pi, log1p, sqrt⟩ x := by
+  unfold erfinvWith
+  simp only []
+  have e : - -x * -x = -x * x := by ring
+  rw [e, sgn_neg]
+  push_cast
+  ring
+
+/-- … and vanishes at 0 (the sign is 0) -/
+theorem erfinv_zero {K : Type} [Field K] (pi : K) (log1p : Rat → K) (sqrt : K → K) :
+    erfinvWith ⟨((↑) : Rat → K), pi, log1p, sqrt⟩ 0 = 0 := by
+  unfold erfinvWith
+  simp [sgn]
+
+/-- the form written "without cancellation" is Winitzki's `−tt1 + sqrt(tt1² − tt2)`: for any `s` with
+`s² = tt1² − tt2` (the inner square root) and `tt1 + s ≠ 0` -/
+theorem erfinv_conjugate {K : Type} [Field K] (tt1 tt2 s : K) (hs : s * s = tt1 * tt1 - tt2) (hd : tt1 + s ≠ 0) :
+    -tt2 / (tt1 + s) = -tt1 + s := by
+  rw [div_eq_iff hd]
+  have : tt2 = tt1 * tt1 - s * s := by rw [hs]; ring
+  rw [this]; ring
+
+/-- the argument of the outer square root is non-negative and the denominator positive for every `l ≤ 0`
+(`l = log1p(−x²)` on (−1, 1)), given a square root that is non-negative and squares back on non-negatives:
+neither square root leaves its domain and there is no division by zero -/
+theorem erfinv_domain {K : Type} [Field K] [LinearOrder K] [IsStrictOrderedRing K] (tt1 tt2 : K) (sqrt : K → K)
+    (hsq : ∀ t, 0 ≤ t → 0 ≤ sqrt t ∧ sqrt t * sqrt t = t) (h2 : tt2 < 0) :
+    0 ≤ tt1 * tt1 - tt2 ∧ 0 < tt1 + sqrt (tt1 * tt1 - tt2) ∧ 0 < -tt2 / (tt1 + sqrt (tt1 * tt1 - tt2)) := by
+  have hd : 0 ≤ tt1 * tt1 - tt2 := by nlinarith [mul_self_nonneg tt1]
+  obtain ⟨hs0, hss⟩ := hsq _ hd
+  have hpos : 0 < tt1 + sqrt (tt1 * tt1 - tt2) := by
+    by_contra hcon
+    have hle : sqrt (tt1 * tt1 - tt2) ≤ -tt1 := by linarith [not_lt.mp hcon]
+    have : sqrt (tt1 * tt1 - tt2) * sqrt (tt1 * tt1 - tt2) ≤ (-tt1) * (-tt1) :=
+      mul_self_le_mul_self hs0 hle
+    nlinarith
+  exact ⟨hd, hpos, div_pos (by linarith) hpos⟩
+
+example : erfinvWith (K := Rat) ⟨((↑) : Rat → Rat), 3, fun _ => 0, fun t => t⟩ (1 / 2) = 0 := by
+  norm_num [erfinvWith, sgn]
 
 /-! ## gamma approximation: the recursion skeleton -/
 
